@@ -30,6 +30,8 @@ impl<M: MovingAverageConstructor> EaseOfMovement<M> {
 		r is Ok ==> self.ma.seeded(0real, &r->Ok_0.m1) && r->Ok_0.w.view().len() == self.period2
 			&& (forall|i: int| 0 <= i < r->Ok_0.w.view().len() ==> (#[trigger] r->Ok_0.w.view()[i]).high == candle.high_s() && r->Ok_0.w.view()[i].low == candle.low_s()),
 		r is Ok ==> r->Ok_0.cross.up.last_delta@ == 0real && r->Ok_0.cross.down.last_delta@ == 0real,
+		// C08: for an averaging kind that cannot overshoot, the constant state for this candle (eom_const_step)
+		r is Ok && self.ma.convex_kind() ==> r->Ok_0.const_state(candle),
 //@replace Ok(Self::Instance { ==> Ok(EaseOfMovementInstance {
 //@end
 }
@@ -79,6 +81,8 @@ impl<M: MovingAverageConstructor> EldersForceIndex<M> {
 		// documented seeds: the average from 0; period2 copies of the first candle, so the volume sum is period2 * volume
 		r is Ok ==> self.ma.seeded(0real, &r->Ok_0.ma) && r->Ok_0.window.view().len() == self.period2,
 		r is Ok ==> r->Ok_0.cross_over.up.last_delta@ == 0real && r->Ok_0.cross_over.down.last_delta@ == 0real,
+		// C08: for an averaging kind that cannot overshoot, the constant state for this candle (efi_const_step)
+		r is Ok && self.ma.convex_kind() ==> r->Ok_0.const_state(candle),
 //@replace Ok(Self::Instance { ==> Ok(EldersForceIndexInstance {
 //@hint result
 	proof {
@@ -156,6 +160,51 @@ impl<M: MovingAverageConstructor> EldersForceIndexInstance<M> {
 		assert(nv.drop_last() =~= ov.drop_first());
 	}
 //@end
+}
+
+// ---- C08 at indicator level (averaging kinds that cannot overshoot): EaseOfMovement and EldersForceIndex on a repeated candle return 0 and no signal
+impl<M: MovingAverageConstructor> EaseOfMovementInstance<M> {
+	pub open spec fn const_state<T: OHLCV>(&self, c: &T) -> bool {
+		&&& self.inv() && self.m1.convex() && self.m1.within(0real, 0real) && self.cross.up.last_delta@ == 0real
+		&&& forall|i: int| 0 <= i < self.w.view().len() ==> (#[trigger] self.w.view()[i]).high == c.high_s() && self.w.view()[i].low == c.low_s()
+	}
+}
+pub proof fn eom_const_step<M: MovingAverageConstructor, T: OHLCV>(pre: &EaseOfMovementInstance<M>, candle: &T, post: &EaseOfMovementInstance<M>, value: ValueType, sig: Action, v: ValueType, zero: ValueType)
+	requires pre.const_state(candle), post.inv(), eom_step(pre, candle, post, value, sig, v, zero)
+	ensures value@ == 0real, sig is None, post.const_state(candle)
+{
+	let (h, l, vol) = (candle.high_s()@, candle.low_s()@, candle.volume_s()@);
+	assert(pre.w.view()[0].high == candle.high_s() && pre.w.view()[0].low == candle.low_s());
+	if vol != 0real {
+		assert((((h - h) + (l - l)) * 0.5real) * (h - l) / vol == 0real) by(nonlinear_arith) requires vol != 0real;
+	}
+	<M::Instance as MovingAverage>::lemma_within_step(&pre.m1, &v, &post.m1, &value, 0real, 0real);
+	let w = post.w.view();
+	assert forall|i: int| 0 <= i < w.len() implies (#[trigger] w[i]).high == candle.high_s() && w[i].low == candle.low_s() by {
+		if i < w.len() - 1 { assert(w[i] == w.drop_last()[i] && w.drop_last()[i] == pre.w.view().drop_first()[i] && pre.w.view().drop_first()[i] == pre.w.view()[i + 1]); }
+	}
+}
+impl<M: MovingAverageConstructor> EldersForceIndexInstance<M> {
+	pub open spec fn const_state<T: OHLCV>(&self, c: &T) -> bool {
+		&&& self.inv() && self.ma.convex() && self.ma.within(0real, 0real) && self.cross_over.up.last_delta@ == 0real
+		&&& forall|i: int| 0 <= i < self.window.view().len() ==> {
+				let k = #[trigger] self.window.view()[i];
+				k.open == c.open_s() && k.high == c.high_s() && k.low == c.low_s() && k.close == c.close_s() && k.volume == c.volume_s() }
+	}
+}
+pub proof fn efi_const_step<M: MovingAverageConstructor, T: OHLCV>(pre: &EldersForceIndexInstance<M>, candle: &T, post: &EldersForceIndexInstance<M>, value: ValueType, sig: Action, force: ValueType, zero: ValueType)
+	requires pre.const_state(candle), post.inv(), post.cfg == pre.cfg, efi_step(pre, candle, post, value, sig, force, zero)
+	ensures value@ == 0real, sig is None, post.const_state(candle)
+{
+	let left = pre.window.view()[0];
+	assert(left.open == candle.open_s() && left.high == candle.high_s() && left.low == candle.low_s() && left.close == candle.close_s() && left.volume == candle.volume_s());
+	assert(src_val(candle, pre.cfg.source) == src_val(&left, pre.cfg.source));
+	assert(0real * vol_sum(post.window.view()) == 0real) by(nonlinear_arith);
+	<M::Instance as MovingAverage>::lemma_within_step(&pre.ma, &force, &post.ma, &value, 0real, 0real);
+	let w = post.window.view();
+	assert forall|i: int| 0 <= i < w.len() implies ({ let k = #[trigger] w[i]; k.open == candle.open_s() && k.high == candle.high_s() && k.low == candle.low_s() && k.close == candle.close_s() && k.volume == candle.volume_s() }) by {
+		if i < w.len() - 1 { assert(w[i] == w.drop_last()[i] && w.drop_last()[i] == pre.window.view().drop_first()[i] && pre.window.view().drop_first()[i] == pre.window.view()[i + 1]); }
+	}
 }
 } // verus!
 fn main() {}
